@@ -52,9 +52,10 @@ VARIABLES
   idk,       \* [group -> next sequence number] (volatile)
   used,      \* bundles already submitted
   late,      \* Advance happened: short-lived bundles are expired
+  aged,      \* the bundles that were in the store when time advanced and have been there ever since
   steps, hist
 
-vars == <<up, failing, st, meta, own, peerv, nbr, table, via, idk, used, late, steps, hist>>
+vars == <<up, failing, st, meta, own, peerv, nbr, table, via, idk, used, late, aged, steps, hist>>
 
 NoRec == [known |-> FALSE, pending |-> FALSE, sent |-> {}, seq |-> 0]
 NoMeta == [has |-> FALSE, copies |-> 0, sent |-> {}]
@@ -67,14 +68,16 @@ Init ==
   /\ own = {} /\ peerv = [p \in Peers |-> [d \in Peers \cup {"far", "bcast"} |-> 0]]
   /\ nbr = {} /\ table = {} /\ via = "none"
   /\ idk = [g \in Groups |-> 0]
-  /\ used = {} /\ late = FALSE /\ steps = 0 /\ hist = <<>>
+  /\ used = {} /\ late = FALSE /\ aged = {} /\ steps = 0 /\ hist = <<>>
 
 -----------------------------------------------------------------------------
 (* world record threaded through the pipeline operators *)
 World == [st |-> st, meta |-> meta, up |-> up, failing |-> failing, own |-> own, sends |-> {}, delivered |-> {}, reports |-> {}]
 
 IsLocal(d) == d \in {"app", "noagent"}
-Expired(b) == Attr[b].life = "short" /\ late
+(* a bundle with a creation time runs out at that time plus its lifetime, wherever it has been; one without (clock-less
+   source) runs out by its age: the age it arrived with plus the time it has stayed here *)
+Expired(b) == Attr[b].life = "short" /\ late /\ (Attr[b].clockless => b \in aged)
 Wants(b, r) == r \in Attr[b].req /\ ~Attr[b].admin /\ ~Attr[b].rptlocal
 Report(w, b, kind, reason) == [w EXCEPT !.reports = @ \cup {[b |-> b, kind |-> kind, reason |-> reason]}]
 ReportIf(w, b, r, kind, reason) == IF Wants(b, r) THEN Report(w, b, kind, reason) ELSE w
@@ -182,6 +185,7 @@ Exp(w) == [stored |-> {b \in Cat : w.st[b].known}, pending |-> {b \in Cat : w.st
 
 Commit(w, rec) ==
   /\ st' = w.st /\ meta' = w.meta
+  /\ aged' = {b \in (IF rec.act = "Advance" THEN {x \in Cat : w.st[x].known} ELSE aged) : w.st[b].known}
   /\ steps' = steps + 1
   /\ hist' = IF EmitMode = "none" THEN hist ELSE Append(hist, rec @@ [exp |-> Exp(w)])
   /\ (EmitMode = "edge") => PrintT(<<"TRACE", ToJson(hist')>>)
@@ -312,6 +316,6 @@ Conservation == Algo = "spray" => \A b \in Cat : (meta[b].has /\ Attr[b].origin 
 DistinctIds == \A x, y \in Cat : (x # y /\ st[x].known /\ st[y].known /\ Attr[x].origin = "app" /\ Attr[y].origin = "app"
                                     /\ Attr[x].tsg = Attr[y].tsg /\ Attr[x].tsg # 0) => st[x].seq # st[y].seq
 
-SView == <<up, failing, st, meta, own, peerv, nbr, table, via, idk, used, late, steps>>
+SView == <<up, failing, st, meta, own, peerv, nbr, table, via, idk, used, late, aged, steps>>
 Emit == (EmitMode = "final" /\ steps = MaxSteps) => PrintT(<<"TRACE", ToJson(hist)>>)
 =============================================================================
